@@ -594,6 +594,17 @@ def _precond(ck, p):
         if rv["k"] == "use" and "k" in rv["op"] and rv["op"]["k"].get("txt") in ("true", "false") and "debug_assertions" in line_text(fn, s.get("cl") or s["ln"]):
             from ..prover import V_bool
             return V_bool([], [])
+        # headroom: a u8 row entry can be as large as the longer input (the distance between two words without a common
+        # letter), and the recurrence adds 1 to it: the bound on the lengths has to leave room for that
+        if rv["k"] == "bin" and rv["op"] in ("Add", "AddWithOverflow") and "k" in rv["b"] and str(rv["b"]["k"].get("int")) == "1" and "u8" in str(rv["b"]["k"].get("txt", "")) + fn.local_tystr(s["lhs"][0]):
+            for ai, av in enumerate(args_box[0] if args_box else []):
+                if av[0] == "slice" and "[char]" in fn.local_tystr(ai + 1):
+                    goal = Lin.konst(254).sub(av[1])
+                    ok = entails(st.facts, goal)
+                    if not ok:
+                        m = counter_model(st.facts, goal)
+                        headroom.append({"ln": s["ln"], "val": cx.show(av[1]), "model": cx.show_model(m) if m else None})
+            return None
         if rv["k"] == "cast" and rv["kind"] == "int" and fn.ty(rv["from"])["s"] == "usize" and fn.ty(rv["to"])["s"] == "u8":
             from ..prover import op_val
             ov = op_val(cx, st, rv["op"])
@@ -605,9 +616,17 @@ def _precond(ck, p):
             else:
                 casts.append({"bb": bb, "ln": s["ln"], "ok": None, "val": "?", "model": None, "opaque": True})
         return None
+    headroom = []
+    args_box = []
     cx = Ctx(p, {"stmt_post": stmt_post})
     args, fsx = generic_args(cx, f)
+    args_box.append(args)
     analyze(cx, f, args, fsx)
+    if headroom:
+        h = headroom[0]
+        ck.refuted(rule, "edit_distance_min_alloc:headroom", f.loc(h["ln"]), "a u8 row entry is incremented (line %d) while %s may be 255 (%s): a row entry can be as large as the longer input, so for a 255-letter word the increment overflows u8 - a panic in builds with overflow checks, a wrong distance otherwise" % (h["ln"], h["val"], h["model"]))
+    else:
+        ck.proved(rule, "edit_distance_min_alloc:headroom", f.span, "where a u8 row entry is incremented both input lengths are at most 254")
     byb = {}
     for c in casts:
         old = byb.get(c["bb"])
